@@ -869,6 +869,15 @@ def comments_in_text(text):
 REST_DOC = '    """\n    Doc.\n\n    :param a: the a\n    :type a: ```int```\n    """\n'
 
 # Witnesses: (id, expected finding id or None, source, (fmt, ta, nww), expected header line in the output or None)
+ARG_TYPE_COMMENT_SRCS = [
+    '"""Module"""\n\n\ndef scale(\n    value,  # type: float\n    factor=2,  # type: int\n    *rest\n):\n    """\n    Scale a value\n\n    :param value: the value to scale\n\n'
+    '    :param factor: multiplier\n\n    :return: scaled value\n    """\n    # keep me\n    return value * factor\n\n\nclass Box(object):\n    """A box"""\n\n'
+    '    def grow(\n        self,\n        by=1,  # type: int\n    ):\n        """\n        Grow the box\n\n        :param by: amount\n\n        :return: new size\n        """\n        return by\n',
+    'def f(\n    a,  # type: str\n    *,\n    k=None,  # type: Optional[int]\n    **kw  # type: Any\n):\n    # type: (...) -> str\n    """\n    Do it.\n\n    Args:\n      a: the a\n      k: the k\n\n'
+    '    Returns:\n      str: the result\n    """\n    return a\n',
+    'def g(a,  # type: int\n      b=(1, 2),  # type: tuple\n      ):\n    """Summary.\n\n    Parameters\n    ----------\n    a\n        the a\n    b\n        the b\n    """\n    x = 1  # type: int\n    return x\n',
+]
+
 WITNESSES = [
     ("w-default", ["C07-resynth-defaults"], "def f(a=1):\n" + REST_DOC + "    pass\n", ("rest", True, None), "def f(a: int):"),
     ("w-vararg", ["C07-resynth-vararg"], "def f(a, *b):\n" + REST_DOC + "    pass\n", ("rest", True, None), "def f(a: int):"),
@@ -920,6 +929,10 @@ WITNESSES = [
      "@dec()\nclass C3(object):\n    @dec\n    def step(self,\n             bar_baz) -> int: ...  # stub", ("google", False, None), None),
     ("w-starred-docstring-type", ["C07-docstring-type-not-annotation"],
      'def f(K):\n    """\n    Doc.\n\n    :param K: the k\n    :type K: ```*Union[int, str]```\n    """\n    return K\n', ("rest", True, None), "def f(K: *Union[int, str]) -> str:"),
+    # PEP 484 per-argument type comments in a multi-line header; no annotation changes (--no-type-annotations), so the header, its
+    # defaults, `*rest` and its comments must stay byte-identical while the docstring is converted
+    ("w-arg-type-comments", [], ARG_TYPE_COMMENT_SRCS[0], ("google", False, None), None),
+    ("w-comment-before-docstring", ["C07-comment-before-docstring-statements", "C07-indent-sample-lines"], ARG_TYPE_COMMENT_SRCS[1], ("rest", False, None), None),
     ("w-stub-atomic", [], "def s(a): ...\n\ndef h(a):\n" + REST_DOC + "    return a\n", ("rest", True, None), None),
 ]
 
@@ -936,6 +949,9 @@ def gen_cases(chk: core.Check):
 
     for wid, _, src, cfg, _ in WITNESSES:
         add(src, cfg, "witness", [wid], wid=wid)
+    for src in ARG_TYPE_COMMENT_SRCS:  # deterministic: type comments (per argument, per function, per assignment) x every configuration
+        for cfg in CONFIGS:
+            add(src, cfg, "type-comments", ["arg-type-comment"])
     n_single, n_grid, n_fail, n_mut = (4000, 250, 600, 500) if chk.quick else (24000, 1500, 4000, 3000)
     for _ in range(n_single):
         src, feats = c07mod.gen_module(rng)
@@ -1228,6 +1244,10 @@ def run(chk: core.Check) -> int:
             chk.oblige("witness w-async-sole: the file is rewritten, stays Python, and the `async def` keeps its docstring-only body", "witness",
                        r["error"] is None and r["after"] != src and (r["after"] or "").startswith('async def g(a):\n    """Doc."""\n') and not fails,
                        "error=%s after=%r" % (r["error"], (r["after"] or "")[:60]))
+        if wid == "w-arg-type-comments":
+            chk.oblige("witness w-arg-type-comments: docstring converted, the header with its per-argument `# type:` comments, default and *rest untouched",
+                       "witness", r["error"] is None and r["after"] != src and "    factor=2,  # type: int\n    *rest\n):" in (r["after"] or "") and not fails,
+                       "error=%s fails=%s after=%r" % (r["error"], [s for s, _ in fails][:3], (r["after"] or "")[:120]))
         if wid == "w-stub-atomic":
             chk.oblige("witness w-stub-atomic: the CST stage raises and the file is byte-identical", "witness",
                        r["error"] == "AttributeError" and r["entered"] and r["after"] == src, "error=%s entered=%s" % (r["error"], r["entered"]))
